@@ -69,6 +69,11 @@ def run(ctx, res):
     msm.rule_decode(prog, res)
     msm.rule_guards(prog, res)
     lists.rule_lists(prog, res)
+    # the encoders propagate every error too: a swallowed Err (out-of-range element, full buffer) would let build_message succeed with a
+    # partly written element, and the frame would not decode to the message that was given
+    import panics as _p
+    import engine as _eng
+    lists.rule_error_propagation(prog, _eng.Filtered(res, {"E-prop"}), _p.closure(prog, _p.ENC_ROOTS), side="encode", floor=1000 if "all_msgs" in set(prog.crate["features"]) else 1)
     ssr.rule_count_fields(prog, res)
     ssr.rule_tables(prog, res)
     ssr.rule_1230(prog, res)
